@@ -50,6 +50,8 @@ CONFIGURATION_INDEXES = [
 
 SECRETS_PATH = 'secrets.json'
 
+_NOT_EMITTED = object()
+
 
 def breakdown_data(
         limit: float,
@@ -275,8 +277,8 @@ class RAMEmitter(Emitter):
             for t, data in self.saved_data.items():
                 paths_data = []
                 for path in query:
-                    datum = get_in(data, path)
-                    if datum:
+                    datum = get_in(data, path, _NOT_EMITTED)
+                    if datum is not _NOT_EMITTED:
                         path_data = (path, datum)
                         paths_data.append(path_data)
                 returned_data[t] = paths_to_dict(paths_data)
